@@ -211,11 +211,6 @@ func (a *allocation) createPermission(perm *permission, addr net.Addr) error {
 	return nil
 }
 
-// WriteTo writes a packet with payload to addr.
-// WriteTo can be made to time out and return
-// an Error with Timeout() == true after a fixed time limit;
-// see SetDeadline and SetWriteDeadline.
-// On packet-oriented connections, write timeouts are rare.
 // forgetIdlePermission drops the entry of a permission that was never granted.
 func (a *allocation) forgetIdlePermission(perm *permission, addr net.Addr) {
 	perm.mutex.Lock()
@@ -226,6 +221,11 @@ func (a *allocation) forgetIdlePermission(perm *permission, addr net.Addr) {
 	}
 }
 
+// WriteTo writes a packet with payload to addr.
+// WriteTo can be made to time out and return
+// an Error with Timeout() == true after a fixed time limit;
+// see SetDeadline and SetWriteDeadline.
+// On packet-oriented connections, write timeouts are rare.
 func (c *UDPConn) WriteTo(payload []byte, addr net.Addr) (int, error) { //nolint:gocognit,cyclop
 	var err error
 	_, ok := addr.(*net.UDPAddr)
